@@ -159,7 +159,7 @@ func (s *wtSrc) WriteTo(w io.Writer) (int64, error) {
 		}
 	}
 	if s.sc.Fault {
-		return total, errInjected
+		return total, s.sc.err()
 	}
 	return total, nil
 }
